@@ -859,7 +859,8 @@ fn clear_failed(senders: &mut Vec<DownlinkSender>, failed: &HashSet<usize>) {
 async fn flush_all(senders: &mut Vec<DownlinkSender>) {
     let mut failed = HashSet::<usize>::default();
     for (i, tx) in senders.iter_mut().enumerate() {
-        if tx.flush().await.is_err() {
+        // (flushing an empty buffer succeeds on a channel whose reader has gone: ask the channel)
+        if tx.flush().await.is_err() || tx.sender.get_ref().is_closed() {
             failed.insert(i);
         }
     }
